@@ -281,6 +281,11 @@ void DNS_ICACHE_FLASH_ATTR supla_esp_dns_resolve(
   supla_esp_dns_request_release();
   dns_client_vars.dns_query_result_cb = dns_query_result_cb;
 
+  // Nothing of the previous request may decide the fate of this one:
+  // until a new request has been built, a failure is reported at once.
+  dns_client_vars.success = 0;
+  dns_client_vars.try_counter = DNS_SERVER_COUNT;
+
   if (domain == NULL) {
     return;
   }
